@@ -358,6 +358,7 @@ def store_upload(query):
     return r
 
 
+@app.route("/api/store/metadata/", defaults={"query": ""}, methods=["GET"])
 @app.route("/api/store/metadata/<path:query>", methods=["GET"])
 def store_get_metadata(query):
     store = get_store()
@@ -416,6 +417,7 @@ def store_removedir(query):
         )
 
 
+@app.route("/api/store/contains/", defaults={"query": ""})
 @app.route("/api/store/contains/<path:query>")
 def store_contains(query):
     store = get_store()
@@ -432,6 +434,7 @@ def store_contains(query):
         )
 
 
+@app.route("/api/store/is_dir/", defaults={"query": ""})
 @app.route("/api/store/is_dir/<path:query>")
 def store_is_dir(query):
     store = get_store()
@@ -460,6 +463,7 @@ def store_keys():
         return jsonify(dict(query=None, message=traceback.format_exc(), status="ERROR"))
 
 
+@app.route("/api/store/listdir/", defaults={"query": ""})
 @app.route("/api/store/listdir/<path:query>")
 def store_listdir(query):
     store = get_store()
